@@ -8,6 +8,7 @@ import numpy as np
 
 from ..lib import core
 from ..lib.core import Failure, Disagreement
+from ..extract import calibshape as _ex
 
 PROP = "C15"
 LEAN_MODULE = "NixModel.Props.C15"
@@ -31,6 +32,20 @@ THEOREMS = [
     "Nix.C15.C15_float_bound",
     "Nix.C15.C15_float_bound_linear",
     "Nix.C15.C15_float_bound_origin_only",
+    # the generated statement lists of the source (Generated/CalibShape.lean) compute the model functions
+    "Nix.C15.C15_shape_read_data",
+    "Nix.C15.C15_shape_view_read",
+    "Nix.C15.C15_shape_setters",
+    "Nix.C15.C15_shape_entry_points",
+    "Nix.C15.C15_generated_read_formula",
+    "Nix.C15.C15_result_dtype",
+    "Nix.C15.C15_zero_polynomial",
+    "Nix.C15.C15_constant_polynomial",
+    "Nix.C15.C15_trailing_zeros",
+    "Nix.C15.C15_identity_polynomial",
+    "Nix.C15.C15_refused_changes_nothing",
+    "Nix.C15.C15_last_assignment_wins",
+    "Nix.C15.C15_write_then_read",
 ]
 ASSUMPTIONS = [
     "values that are doubles in Python are exact rationals in the model: astype(double) is the identity and the "
@@ -61,6 +76,12 @@ ANCHORS = {
     "nixio/data_set.py": {"__array__": "c2196c70266ca071", "__getitem__": "366a4419c930506b",
                           "_read_data": "055f75cc8e035ef2"},
 }
+
+
+def extract(repo):
+    """(T) statement lists of DataArray._read_data, util.apply_polynomial, DataView._read_data, the calibration
+    setters / getters and the DataSet entry points -> NixModel/Generated/CalibShape.lean"""
+    return _ex.extract(repo)
 
 
 def changed_anchors():
